@@ -13,23 +13,26 @@ EXTENDS Naturals, Sequences, FiniteSets, TLC, Json, IOUtils
  ***************************************************************************************************)
 CONSTANT StaleRelationIndex
 Traces == ndJsonDeserialize(IOEnv.TRACE_FILE)
-VARIABLES tid, l, nodes, free, relIndex, edges, verdict
-vars == <<tid, l, nodes, free, relIndex, edges, verdict>>
+VARIABLES tid, l, nodes, objOf, free, relIndex, edges, verdict
+vars == <<tid, l, nodes, objOf, free, relIndex, edges, verdict>>
 Ev == Traces[tid].ev
 Cur == Ev[l]
-Init == /\ tid \in 1..Len(Traces) /\ l = 1 /\ nodes = {} /\ free = <<>> /\ relIndex = {} /\ edges = {} /\ verdict = "ok"
+Init == /\ tid \in 1..Len(Traces) /\ l = 1 /\ nodes = {} /\ objOf = <<>> /\ free = <<>> /\ relIndex = {} /\ edges = {} /\ verdict = "ok"
 TakeIdx == IF free # <<>> THEN free[Len(free)] ELSE Cardinality(nodes) + Len(free)
-Reject(v) == verdict' = v /\ UNCHANGED <<nodes, free, relIndex, edges>>
+Reject(v) == verdict' = v /\ UNCHANGED <<nodes, objOf, free, relIndex, edges>>
 AddNode == /\ Cur.a = "add_node"
            /\ IF Cur.idx \in nodes THEN Reject("prop:C13 node index handed out twice")
+              ELSE IF Cur.o # 0 /\ \E i \in nodes : objOf[i] = Cur.o THEN Reject("prop:C13 second node for an instance that is already registered")
               ELSE IF Cur.idx # TakeIdx \/ Cur.n # Cardinality(nodes) + 1 THEN Reject("shape:add_node")
               ELSE /\ nodes' = nodes \cup {Cur.idx}
+                   /\ objOf' = [i \in (DOMAIN objOf) \cup {Cur.idx} |-> IF i = Cur.idx THEN Cur.o ELSE objOf[i]]
                    /\ free' = IF free # <<>> THEN SubSeq(free, 1, Len(free) - 1) ELSE free
                    /\ UNCHANGED <<relIndex, edges, verdict>>
 RemoveNode == /\ Cur.a = "remove_node"
               /\ IF ~Cur.dead THEN Reject("prop:C13 wrapper of a live instance removed from the registry")
                  ELSE IF Cur.idx \notin nodes \/ Cur.n # Cardinality(nodes) - 1 THEN Reject("shape:remove_node")
                  ELSE /\ nodes' = nodes \ {Cur.idx}
+                      /\ objOf' = [i \in (DOMAIN objOf) \ {Cur.idx} |-> objOf[i]]
                       /\ free' = Append(free, Cur.idx)
                       /\ edges' = { e \in edges : e[2] # Cur.idx /\ e[3] # Cur.idx }
                       /\ relIndex' = IF StaleRelationIndex THEN relIndex ELSE { e \in relIndex : e[2] # Cur.idx /\ e[3] # Cur.idx }
@@ -41,9 +44,9 @@ AddRelation == /\ Cur.a = "add_relation"
                   ELSE IF Cur.added /\ key \in edges THEN Reject("prop:C14 relation recorded twice")
                   ELSE IF Cur.added # (key \notin relIndex) THEN Reject("shape:add_relation")
                   ELSE /\ relIndex' = relIndex \cup {key} /\ edges' = edges \cup {key}
-                       /\ UNCHANGED <<nodes, free, verdict>>
+                       /\ UNCHANGED <<nodes, objOf, free, verdict>>
 Clear == /\ Cur.a = "clear"
-         /\ nodes' = {} /\ free' = <<>> /\ relIndex' = {} /\ edges' = {} /\ UNCHANGED verdict
+         /\ nodes' = {} /\ objOf' = <<>> /\ free' = <<>> /\ relIndex' = {} /\ edges' = {} /\ UNCHANGED verdict
 Next == /\ verdict = "ok" /\ l <= Len(Ev)
         /\ (AddNode \/ RemoveNode \/ AddRelation \/ Clear)
         /\ l' = l + 1 /\ UNCHANGED tid
